@@ -5,7 +5,7 @@
 (* has another pre-image; "inverse" checks only the second (TLC shows it is not *)
 (* enough); "pinned" is the pinned revision (deviation Iso_NotInjective).       *)
 (* D1 ranges over the DFAs on QA, D2 over the DFAs on QB.                       *)
-EXTENDS Util, FA
+EXTENDS Util, FA, Steps
 CONSTANTS QA, QB, S, Q0, Mode
 
 DfaOf(Q, d, F) == [Q |-> Q, S |-> S, T |-> {<<q, a, d[<<q, a>>]>> : q \in Q, a \in S},
@@ -14,42 +14,41 @@ DfasWithF(Q, F) == {DfaOf(Q, d, F) : d \in [Q \X S -> Q]}
 Dummy(Q) == DfaOf(Q, [p \in Q \X S |-> Q0], {})
 None == "none"
 
-VARIABLES D1, D2, m, rm, todo, result, stage
-vars == <<D1, D2, m, rm, todo, result, stage>>
+VARIABLES D1, D2, st, stage
+vars == <<D1, D2, st, stage>>
 
-Init == D1 = Dummy(QA) /\ D2 = Dummy(QB) /\ m = [q \in QA |-> None] /\ rm = [q \in QB |-> None]
-        /\ todo = {} /\ result = None /\ stage = 0
+Init == D1 = Dummy(QA) /\ D2 = Dummy(QB) /\ st = IsoInit(Dummy(QA), Dummy(QB)) /\ stage = 0
 PickF == /\ stage = 0 /\ stage' = 1
          /\ \E F1 \in SUBSET QA, F2 \in SUBSET QB :
                D1' = [Dummy(QA) EXCEPT !.F = F1] /\ D2' = [Dummy(QB) EXCEPT !.F = F2]
-         /\ UNCHANGED <<m, rm, todo, result>>
+         /\ UNCHANGED st
 PickD == /\ stage = 1 /\ stage' = 2
          /\ D1' \in DfasWithF(QA, D1.F) /\ D2' \in DfasWithF(QB, D2.F)
-         /\ todo' = {<<Q0, Q0>>}
-         /\ UNCHANGED <<m, rm, result>>
+         /\ st' = IsoInit(D1', D2')
+
+(* the step of the pinned revision (no injectivity test) and of the partial repair *)
+LegacyStep(s, pr) ==
+  LET q1 == pr[1]
+      q2 == pr[2]
+  IN IF (q1 \in D1.F) # (q2 \in D2.F) \/ (Mode = "inverse" /\ Img(s.rm, q2) \ {q1} # {})
+     THEN [s EXCEPT !.result = "false", !.todo = s.todo \ {pr}]
+     ELSE LET m2 == {p \in s.m : p[1] # q1} \cup {<<q1, q2>>}       \* matching[q1] = q2 overwrites
+              succ == {<<Delta(D1, q1, a), Delta(D2, q2, a)>> : a \in S}
+              clash == \E p \in succ : Img(m2, p[1]) # {} /\ Img(m2, p[1]) # {p[2]}
+          IN IF clash THEN [s EXCEPT !.result = "false", !.todo = s.todo \ {pr}]
+             ELSE LET todo2 == (s.todo \ {pr}) \cup {p \in succ : Img(m2, p[1]) = {}}
+                  IN [m |-> m2, rm |-> s.rm \cup {<<q2, q1>>}, todo |-> todo2,
+                      result |-> IF todo2 = {} THEN "true" ELSE "none"]
 
 Pick(pr) ==
-  /\ stage = 2 /\ result = None /\ pr \in todo
-  /\ LET q1 == pr[1]
-         q2 == pr[2]
-     IN IF \/ (q1 \in D1.F) # (q2 \in D2.F)
-           \/ (Mode \in {"fixed", "inverse"} /\ rm[q2] \notin {None, q1})
-           \/ (Mode = "fixed" /\ m[q1] \notin {None, q2})
-        THEN result' = "false" /\ UNCHANGED <<m, rm, todo>>
-        ELSE LET m2 == [m EXCEPT ![q1] = q2]
-                 succ == {<<Delta(D1, q1, a), Delta(D2, q2, a)>> : a \in S}
-                 clash == \E p \in succ : m2[p[1]] # None /\ m2[p[1]] # p[2]
-             IN IF clash
-                THEN result' = "false" /\ UNCHANGED <<m, rm, todo>>
-                ELSE /\ m' = m2
-                     /\ rm' = [rm EXCEPT ![q2] = q1]
-                     /\ todo' = (todo \ {pr}) \cup {p \in succ : m2[p[1]] = None}
-                     /\ result' = IF todo' = {} THEN "true" ELSE None
+  /\ stage = 2 /\ st.result = None /\ pr \in st.todo
+  /\ st' = IF Mode = "fixed" THEN IsoStep(D1, D2, st, pr) ELSE LegacyStep(st, pr)
   /\ UNCHANGED <<D1, D2, stage>>
 
-Next == PickF \/ PickD \/ \E pr \in todo : Pick(pr)
+Next == PickF \/ PickD \/ \E pr \in st.todo : Pick(pr)
 Spec == Init /\ [][Next]_vars /\ WF_vars(Next)
 
+result == st.result
 Decided == result # None
 AnswerIsBijection == (stage = 2 /\ Decided) => ((result = "true") = IsoExists(D1, D2))
 Terminates == <>(Decided)
